@@ -12,6 +12,7 @@ RULES = {
     "O-raise": "no semantic action raises on a derivation of the fragment",
     "O-case": "both spellings of every keyword edge give the same token type and flag update",
     "O-uniform": "words the fragment treats as one class (same kind of name / number / spelling) are lexed and handled alike",
+    "O-final": "the final output (Output.format evaluated abstractly on the accepted statement) is what the property documents",
 }
 
 
@@ -33,7 +34,8 @@ def run_fragment(ck, ctx, module, label=None, self_attrs=None, only_rules=None, 
         by_rule.setdefault(rule, []).append(f)
         ck.ob(rule, key, False, f.detail, f"fragment {spec.name}", witness=f.witness)
     counts = {"O-accept": ex.n_trans, "O-segment": ex.n_reductions, "O-value": getattr(oracle, "checked", 0),
-              "O-raise": ex.n_actions_evaluated, "O-case": ex.n_trans, "O-uniform": ex.n_trans + ex.n_actions_evaluated}
+              "O-raise": ex.n_actions_evaluated, "O-case": ex.n_trans, "O-uniform": ex.n_trans + ex.n_actions_evaluated,
+              "O-final": getattr(oracle, "checked", 0)}
     for rule, text in RULES.items():
         if only_rules is not None and rule not in only_rules:
             continue
